@@ -758,3 +758,117 @@ def _items_of_lowercased_collection(P, f, tr, e):
                 if is_lowercased(v) or any(x[0] == "call" and method(strip_generics(x[1])) == "to_lowercase" for x in walk(v)):
                     return True
     return False
+
+
+# ------------------------------------------------------------------------------------------------
+# second half of round 5
+def rerun_names_are_verbatim(ctx, P, pre):
+    """the name stored in a queued Command::ResolveHostname / Browse / Resolve is written into a query later: it is the
+    name the caller passed check_hostname / the browse with, not a to_lowercase() copy (Unicode lower-casing can lengthen a
+    label beyond 63 bytes; the lower-cased form is for map keys only)"""
+    n = 0
+    for variant in ("ResolveHostname", "Browse", "Resolve"):
+        for f, b, i, s in all_aggregates(P, "service_daemon::Command", variant):
+            if f.in_tests() or is_derived_impl(f):
+                continue
+            tr = tracer(P, f)
+            e = tr.rvalue(s["r"], (b, i))
+            name_e = e[4][0] if len(e) > 4 and e[4] else e
+            n += 1
+            bad = is_lowercased(name_e) or any(x[0] == "call" and method(strip_generics(x[1])) in ("to_lowercase", "to_uppercase") for x in strip(name_e))
+            ctx.ob(pre + ".rerun-names-are-verbatim", "%s|%s#%d" % (f.name, variant, n), not bad, f.loc(b, i),
+                   "the queued command carries the name as given" if not bad else
+                   "the queued Command::%s carries a lower-cased copy of the name: it is encoded into the next query, and Unicode lower-casing can "
+                   "turn a legal label into one of 64+ bytes (assert in write_utf8 kills the daemon thread)" % variant)
+    ctx.floor(pre + ".rerun-names-are-verbatim", n, 4, "constructions of Command::ResolveHostname / Browse / Resolve")
+
+
+def resolver_entry_always_rewritten(ctx, P, pre):
+    """a second resolve_hostname() for a host replaces the first one whole: add_hostname_resolver writes the (listener,
+    deadline) pair on every path — swapping only the listener keeps the deadline of the call it replaced"""
+    f = resolver_registration_fn(P)
+    ins = [b for b, t in f.calls() if "HashMap" in cname(t) and method(cname(t)) == "insert" and recv_mentions(P, f, b, t, "hostname_resolvers", "Zeroconf")]
+    ok = bool(ins) and not any(f.term(r)["k"] == "return" for r in f.reachable(0, removed_blocks=ins))
+    ctx.ob(pre + ".resolver-entry-always-rewritten", f.name, ok, f.loc(ins[0]) if ins else f.loc(),
+           "every path stores the new (listener, deadline) pair" if ok else
+           "a path registers the new listener without storing its deadline (in-place update of an existing entry): the second resolve_hostname "
+           "ends at the first one's deadline, or never")
+
+
+def pending_cleared_only_with_its_reruns(ctx, P, pre):
+    """the other half of C04n: a stop handler that takes instances out of pending_resolves also purges their queued Resolve
+    reruns, or a re-browse starts a second chain next to the one still queued (six follow-ups 100 ms apart instead of three)"""
+    from .f9 import purge_info
+    n = 0
+    for name in ("Zeroconf::exec_command_stop_browse",):
+        f = P.one(name)
+        fs = [f] + [P.fns[c] for c in P.closures_of.get(f.name, [])]
+        edits = [g.loc(b) for g in fs for b, t in g.calls() if name_matches(cname(t), "HashSet::remove", "HashSet::clear", "HashSet::retain", "HashSet::take", "HashSet::drain")
+                 and (recv_mentions(P, g, b, t, "pending_resolves", "Zeroconf") or (g is not f and fn_mentions_field(P, g, "Zeroconf", "pending_resolves")))]
+        if not edits:
+            continue
+        n += 1
+        purges = any("Resolve" in vs for (_b, vs) in purge_info(P, f)["removes"])
+        ctx.ob(pre + ".pending-cleared-only-with-its-reruns", f.name, purges, edits[0],
+               "the handler purges the Resolve reruns of the instances it forgets" if purges else
+               "the handler takes instances out of pending_resolves but leaves their Resolve reruns queued: browse again within 1.5 s and a second "
+               "chain of follow-ups runs beside the first")
+    ctx.ob(pre + ".pending-cleared-only-with-its-reruns", "(stop handlers editing pending_resolves: %d)" % n, True, "", "checked")
+
+
+def newest_record_first(ctx, P, pre):
+    """readers of the cache take the FIRST live record of a name (resolve_service_from_cache: first TXT, first SRV); while
+    an old and a new TXT are both alive (cache-flush spares records younger than a second) the new one must come first, so
+    add_or_update inserts a new record at index 0"""
+    f = P.one("DnsCache::add_or_update")
+    tr = tracer(P, f)
+    ins = [(b, t) for b, t in f.calls() if name_matches(cname(t), "Vec::insert")]
+    psh = [(b, t) for b, t in f.calls() if name_matches(cname(t), "Vec::push") and any(x == ("param", 3) for x in walk(tr.operand(t["args"][1], endpos(f, b))))]
+    ok = bool(ins) and all(const_value(tr.operand(t["args"][1], endpos(f, b))) == 0 for b, t in ins) and not psh
+    ctx.ob(pre + ".newest-record-first", f.name, ok, f.loc(ins[0][0]) if ins else f.loc(),
+           "a new record goes to the front of its vector" if ok else
+           "a new record is appended behind the older ones: readers that take the first live record keep showing the old TXT after an update")
+
+
+def compression_key_labels_untransformed(ctx, P, pre):
+    """the compression key is the labels joined by '.', nothing else: escaping only some characters of a label before the
+    join makes different label sequences share a key (`lab\\` + `office` vs `lab.office`)"""
+    f = P.one("DnsOutPacket::write_name")
+    fs = [f] + [P.fns[c] for c in P.closures_of.get(f.name, [])]
+    bad = [g.loc(b) for g in fs for b, t in g.calls() if method(strip_generics(cname(t))) in ("replace", "replacen", "escape_default", "escape_debug") and "str" in cname(t)]
+    ctx.ob(pre + ".compression-key-labels-untransformed", f.name, not bad, f.loc(),
+           "write_name applies no string rewriting to the labels it keys" if not bad else
+           "write_name rewrites labels before keying them (%s): unless every special character is escaped consistently, two different names "
+           "share a compression key and the second is written as a pointer to the first" % bad[:1])
+
+
+def one_refresh_query_per_due_record(ctx, P, pre):
+    """refresh_due_hostname_resolutions has already disarmed EVERY due address record it returns; the caller therefore asks for
+    every one of them (a loop over the result), A or AAAA by the record's family — asking once per host leaves the other
+    family of a dual-stack host to run out"""
+    hits = []
+    for f in P.lib_fns():
+        if f.in_tests() or f.is_closure:
+            continue
+        rc = calls_to(f, "DnsCache::refresh_due_hostname_resolutions")
+        if not rc:
+            continue
+        tr = tracer(P, f)
+        loops = f.loops()
+        for b, t in f.calls():
+            if method(cname(t)) != "next" or not t["args"]:
+                continue
+            e = tr.operand(t["args"][0], endpos(f, b))
+            if not any(x[0] == "call" and x[3] == (f.name, rc[0][0]) for x in walk(e)):
+                continue
+            inner = [h for h, body in loops.items() if b in body]
+            h = min(inner, key=lambda x: len(loops[x])) if inner else None
+            # the `next()` on the result drives its own loop: the innermost loop around it is entered through it
+            own = h is not None and (h == b or all(f.dominates(b, x) for x in loops[h] if x != h))
+            hits.append((f, b, own))
+    ctx.require(bool(hits), pre + ".anchor", "refresh_due_hostname_resolutions|consumer", "", "%d consumer(s) of the result" % len(hits))
+    for (f, b, own) in hits:
+        ctx.ob(pre + ".one-refresh-query-per-due-record", f.name, own, f.loc(b),
+               "the due records are walked in a loop of their own" if own else
+               "only the first due record of the host is looked at (no loop over the result): the other address family is disarmed but never "
+               "asked for, expires, and AddressesRemoved is reported for a live address")
